@@ -937,10 +937,43 @@ class Explorer:
                 self.stats.infeasible += 1
             except BoundExceeded:
                 self.stats.truncated += 1
+            except Exception as e:  # noqa: BLE001
+                # an exception of the code under test that the harness did not anticipate: a candidate counterexample of the
+                # generic obligation "no unexpected exception" (replayed concretely like any other; if it does not reproduce it is
+                # reported as a harness error).  Exceptions raised by the harness's own code propagate as before.
+                where = raised_in_code_under_test(e)
+                if where is None:
+                    raise
+                self.stats.paths += 1
+                self.stats.obligations += 1
+                self.stats.nontrivial += 1
+                m = self.current_model()
+                self.findings.append(Finding(UNEXPECTED, self.assignment(m) if m is not None else {}, f"{type(e).__name__}: {e} at {where}"))
             finally:
                 CUR = None
         left, self.work = self.work, []
         return left
+
+
+UNEXPECTED = "no-unexpected-exception"
+
+
+def raised_in_code_under_test(e):
+    """"file:line" of the innermost frame of the traceback that lies in the repository's psutil package, if the exception was
+    raised there or in a stub called from there; None when it comes from the harness's own code"""
+    import os as _os
+    import traceback as _tb
+
+    repo = _os.environ.get("PSV_REPO", "/repo") + "/psutil/"
+    frames = _tb.extract_tb(e.__traceback__)
+    inner = [f for f in frames if f.filename.startswith(repo) or "/psutil/" in f.filename and "/verif/" not in f.filename]
+    if not inner:
+        return None
+    last = frames[-1]
+    if "/verif/psv/harness/" in last.filename:
+        return None                    # raised by harness code called back from psutil: the harness's business
+    f = inner[-1]
+    return f"{f.filename.rsplit('/', 1)[-1]}:{f.lineno}"
 
 
 def _guard(ctx, label, fn, a, kw, expect):
@@ -1105,7 +1138,12 @@ class SymCtx:
         if ok:
             ex.stats.discharged += 1
             return True
-        ex.findings.append(Finding(label, dict(assignment or {}), detail))
+        full = {}
+        m = ex.current_model()
+        if m is not None:
+            full.update(ex.assignment(m))      # the psym-level decisions of this path (flags, choices) belong to the counterexample
+        full.update(assignment or {})
+        ex.findings.append(Finding(label, full, detail))
         return False
 
     def add_stats(self, **kw):
